@@ -492,7 +492,11 @@ C14_RunningMeansProcessing == Quiescent /\ ref = "running" /\ E.wss = "Running" 
 C14_RestAgrees == Quiescent /\ ref # "unknown" /\ ~pcancel => E.wss = StatusName(ref)
 \* cancelling the configured context stops a started worker
 C14_CtxStops == Quiescent /\ pcancel /\ started /\ ~overlap /\ E.blocked = <<>> => E.wss = "Stopped"
-C14_OneLoop == Quiescent /\ ~overlap /\ E.wss = "Running" => E.cloop = 1
+\* (whatever calls have overlapped: a worker that reports Running at rest has exactly one event loop, has drained its queues
+\* and runs nothing; one that reports Stopped has no event loop left)
+C14_OneLoop == Quiescent /\ E.wss = "Running" /\ hdr.family # "bind2" => E.cloop = 1
+C14_RunningWorks == Quiescent /\ E.wss = "Running" /\ NoUnknown /\ hdr.family # "bind2" => E.pending = UnannPending /\ E.processing = 0
+C14_StoppedHasNoLoop == Quiescent /\ E.wss = "Stopped" /\ E.blocked = <<>> => E.cloop = 0
 
 ---- \* C15 strategy (gated traces, when the contents of every queue are known for sure)
 Certain == \A j \in Jobs : sub[j] \notin {"calling", "unk"} /\ ~mp[j]
